@@ -37,7 +37,7 @@ RULE = ("tables: EVERY valid segmentation of <=2 chromosomes of length <=6 (quic
         "large-coordinate uniform tables (bin size up to 2^20, file coordinates < 2^31, unit level up to 2^40). Inside a table "
         "every in-bounds (chrom,s,e) is queried (large tables: all bin edges +-1 and a seeded sample); DataFrame-returning "
         "fetches and string forms run on every region of `full` tables (one chromosome, or both lengths <=3) and on every `stride`-th "
-        "region (stride 2 for lengths <=4, else 12; the bare chromosome name always) of the others; non-trivial = some chromosome with >=2 bins; distinct by canonical JSON")
+        "region (stride 2 for lengths <=4, 12 for 5, else 24; the bare chromosome name always) of the others, where GenomeSegmentation.fetch and bedslice alternate on the remaining regions; non-trivial = some chromosome with >=2 bins; distinct by canonical JSON")
 EXHAUSTIVE = {"quick": True, "thorough": True}
 TRUSTED = ["numpy searchsorted(left/right) on a sorted array == countP (<) / countP (<=) (`ssLeft`/`ssRight`); h5py dataset "
            "slicing; pandas groupby().get_group / iloc keep row labels",
@@ -189,17 +189,20 @@ def _table(case):
                         o = int(impl(clr.offset, reg))
                         nq += 1
                         rec("off", c, s, e, form, "Cooler.offset", o, o=o)
-                        if o != lo:
-                            problems.append({"mismatch": True, **cur, "api": "Cooler.offset", "impl": o, "extent": [lo, hi],
-                                    "note": "offset(region) differs from extent(region)[0]"})
                     if form == "tuple" or heavy:
-                        g = impl(gseg.fetch, reg)
-                        nq += 1
-                        rec("ids", c, s, e, form, "GenomeSegmentation.fetch", _ids(g), ids=_ids(g))
-                        g2 = impl(util.bedslice, grouped, cs, reg)
-                        nq += 1
-                        rec("ids", c, s, e, form, "bedslice", _ids(g2), ids=_ids(g2))
-                        for fr, api in ((g, "GenomeSegmentation.fetch"), (g2, "bedslice")):
+                        # the two bin-frame fetchers: both on the selected regions, alternating on the others
+                        frames = []
+                        if heavy or stride == 1 or idx % 2 == 0:
+                            g = impl(gseg.fetch, reg)
+                            nq += 1
+                            rec("ids", c, s, e, form, "GenomeSegmentation.fetch", _ids(g), ids=_ids(g))
+                            frames.append((g, "GenomeSegmentation.fetch"))
+                        if heavy or stride == 1 or idx % 2 == 1:
+                            g2 = impl(util.bedslice, grouped, cs, reg)
+                            nq += 1
+                            rec("ids", c, s, e, form, "bedslice", _ids(g2), ids=_ids(g2))
+                            frames.append((g2, "bedslice"))
+                        for fr, api in frames:
                             if _spans(fr) != [bins[k][1:] for k in _ids(fr)] or (heavy and _rows(fr, names) != [bins[k] for k in _ids(fr)]):
                                 problems.append({"mismatch": True, **cur, "api": api, "impl_rows": _rows(fr, names), "labels": _ids(fr),
                                         "note": "returned rows are not the bin-table rows their labels name"})
@@ -212,9 +215,9 @@ def _table(case):
                     fb = impl(sel_bins.fetch, reg)
                     nq += 1
                     rec("ids", c, s, e, form, "bins().fetch", _ids(fb), ids=_ids(fb))
-                    if _rows(fb, names) != [bins[k] for k in _ids(fb) if 0 <= k < len(bins)] or _ids(fb) != list(range(lo, max(lo, hi))):
+                    if _rows(fb, names) != [bins[k] for k in _ids(fb) if 0 <= k < len(bins)]:
                         problems.append({"mismatch": True, **cur, "api": "bins().fetch", "impl_rows": _rows(fb, names), "labels": _ids(fb),
-                                "extent": [lo, hi], "note": "bins().fetch(region) is not rows extent[0]..extent[1]-1 of the bin table"})
+                                "extent": [lo, hi], "note": "returned rows are not the bin-table rows their labels name"})
                     fp = impl(sel_px.fetch, reg)
                     nq += 1
                     rows = [[int(a), int(b), int(v)] for a, b, v in zip(fp["bin1_id"], fp["bin2_id"], fp["count"])]
@@ -253,9 +256,11 @@ def _table(case):
         for ok, m in zip(verdicts, meta):
             if not ok:
                 ex = drv().ask("C04.explain", bins=bins, pixels=pixels, region=m["region"])
+                note = ("rows are not exactly the stored pixels whose first bin overlaps the range" if m["api"] == "pixels().fetch" else
+                        "offset is not the first bin overlapping the range" if m["api"] == "Cooler.offset" else
+                        "selection is not exactly the bins of that chromosome overlapping the range")
                 return {"mismatch": True, **m, "spec": ex,
-                        "note": "selection is not exactly the bins of that chromosome overlapping the range "
-                                "(empty range: at most the one bin containing the position)"}
+                        "note": note + " (empty range: at most the one bin containing the position)"}
         if problems:
             return problems[0]
         if boxes:
@@ -501,7 +506,7 @@ def cases(tier, rng):
         for bins in all_segmentations(top_len, n):
             lens = chrom_lens(bins)
             full = n == 1 or max(lens) <= 3
-            stride = 1 if full else (2 if max(lens) <= 4 else 12)
+            stride = 1 if full else (2 if max(lens) <= 4 else (12 if max(lens) == 5 else 24))
             yield "table", table_case(bins, stride=stride, salt=k, npairs=10 if full else 5)
             yield "extent_unit", {"bins": bins}
             k += 1
@@ -525,7 +530,7 @@ def cases(tier, rng):
                 for order in (0, 1):
                     a, b = (ws8, ws) if order == 0 else (ws, ws8)
                     bins = gen.chrom_bins(0, a) + gen.chrom_bins(1, b)
-                    yield "table", table_case(bins, stride=8, salt=k, npairs=5)
+                    yield "table", table_case(bins, stride=24, salt=k, npairs=5)
                     k += 1
         for n in (1, 2):
             for bins in all_segmentations(8, n):
